@@ -4,6 +4,9 @@ from __future__ import annotations
 from vf.ref import hdlc_ref
 
 
+POISON = object()  # appended by the monitor to every list that read() returned
+
+
 def new_reader(cfg):
     from han.hdlc import HdlcFrameReader
 
@@ -49,12 +52,21 @@ def run(cfg, chunks, ctx=None, reader=None, states: set | None = None):
             err = ex
             break
         for f in frames:
+            if f is POISON:
+                out.append({"bytes": b"<object appended by the caller to an earlier result list>", "valid": False, "payload": None, "fcs": None, "length": None, "type": None,
+                            "seg": None, "dst": None, "src": None, "ctrl": None, "hcs": None, "poison": True})
+                kept.append(None)
+                continue
             out.append(observe(f))
             kept.append(f)
+        if isinstance(frames, list):
+            frames.append(POISON)  # the caller owns the returned list; a list shared between calls would hand this back later
         if states is not None:
             states.add(boundary_state(reader))
     # a returned frame must not change when the reader goes on reading: observe every frame again at the end
     for o, f in zip(out, kept):
+        if f is None:
+            continue
         again = observe(f)
         o["changed_later"] = any(again[k] != o[k] for k in ("bytes", "valid", "payload"))
     return out, err
